@@ -35,6 +35,8 @@ impl Ev {
 
 struct ScriptRecv {
     q: Rc<RefCell<VecDeque<Ev>>>,
+    /// set when the transport answered Pending (i.e. took the caller's waker) during the current call
+    pended: Rc<std::cell::Cell<bool>>,
 }
 
 impl RecvStream for ScriptRecv {
@@ -42,7 +44,10 @@ impl RecvStream for ScriptRecv {
     fn poll_data(&mut self, _cx: &mut Context<'_>) -> Poll<Result<Option<Bytes>, StreamErrorIncoming>> {
         let mut q = self.q.borrow_mut();
         match q.front().cloned() {
-            None => Poll::Pending,
+            None => {
+                self.pended.set(true);
+                Poll::Pending
+            }
             Some(Ev::Chunk(b)) => {
                 q.pop_front();
                 Poll::Ready(Ok(Some(b)))
@@ -76,6 +81,18 @@ impl RecvStream for ScriptRecv {
 struct Noop;
 impl Wake for Noop {
     fn wake(self: Arc<Self>) {}
+}
+
+/// counts wake-ups: a call that answers Pending must either have left its waker with the transport (the transport
+/// answered Pending during the call) or have woken itself - otherwise nothing will ever poll it again
+struct CountWake(std::sync::atomic::AtomicUsize);
+impl Wake for CountWake {
+    fn wake(self: Arc<Self>) {
+        self.0.fetch_add(1, std::sync::atomic::Ordering::SeqCst);
+    }
+    fn wake_by_ref(self: &Arc<Self>) {
+        self.0.fetch_add(1, std::sync::atomic::Ordering::SeqCst);
+    }
 }
 
 fn inner_num(debug: &str) -> String {
@@ -135,9 +152,20 @@ fn fserr_str(e: FrameStreamError) -> String {
 
 fn run_fs(acts: &str) -> String {
     let q = Rc::new(RefCell::new(VecDeque::new()));
-    let mut fs: FrameStream<ScriptRecv, Bytes> = FrameStream::new(BufRecvStream::new(ScriptRecv { q: q.clone() }));
-    let waker = Waker::from(Arc::new(Noop));
+    let pended = Rc::new(std::cell::Cell::new(false));
+    let mut fs: FrameStream<ScriptRecv, Bytes> =
+        FrameStream::new(BufRecvStream::new(ScriptRecv { q: q.clone(), pended: pended.clone() }));
+    let wakes = Arc::new(CountWake(std::sync::atomic::AtomicUsize::new(0)));
+    let waker = Waker::from(wakes.clone());
     let mut cx = Context::from_waker(&waker);
+    // "pend" when the Pending answer is backed by a wake-up that will come, "pend!" when nobody holds the waker
+    let pend_word = |pended: &std::cell::Cell<bool>, wakes: &CountWake, before: usize| {
+        if pended.get() || wakes.0.load(std::sync::atomic::Ordering::SeqCst) != before {
+            "pend"
+        } else {
+            "pend!"
+        }
+    };
     let mut out = vec!["ok".to_string()];
     let mut done = false;
     // what the caller knows about the current DATA frame: declared length minus bytes handed out
@@ -171,6 +199,8 @@ fn run_fs(acts: &str) -> String {
             "p" => owed == 0,
             _ => return "driver-error bad-action".into(),
         };
+        pended.set(false);
+        let wakes_before = wakes.0.load(std::sync::atomic::Ordering::SeqCst);
         if next {
             let r = std::panic::catch_unwind(std::panic::AssertUnwindSafe(|| fs.poll_next(&mut cx)));
             let r = match r {
@@ -182,7 +212,7 @@ fn run_fs(acts: &str) -> String {
                 }
             };
             match r {
-                Poll::Pending => out.push("pend".into()),
+                Poll::Pending => out.push(pend_word(&pended, &wakes, wakes_before).into()),
                 Poll::Ready(Ok(None)) => {
                     out.push("end".into());
                     done = true;
@@ -217,7 +247,7 @@ fn run_fs(acts: &str) -> String {
                 }
             };
             match r {
-                None => out.push("pend".into()),
+                None => out.push(pend_word(&pended, &wakes, wakes_before).into()),
                 Some(Ok(None)) => out.push("none".into()),
                 Some(Ok(Some(b))) => {
                     owed = owed.saturating_sub(b.len() as u64);
